@@ -48,6 +48,7 @@ type c06Pod struct {
 	UpToDate    bool
 	Terminating bool
 	InitC       bool // restart count carried by an init container status
+	Sibling     bool // another regular container is listed before the one described here
 }
 
 type c06Case struct {
@@ -128,6 +129,7 @@ func c06Gen(r *rand.Rand) c06Case {
 		}
 		p.StartAgo = []time.Duration{slow - time.Second, slow, slow + time.Second, 10 * slow}[r.Intn(4)]
 		p.FinishAgo = []time.Duration{10 * time.Second, 3 * time.Minute}[r.Intn(2)]
+		p.Sibling = !p.InitC && r.Intn(4) == 0
 		c.Pods = append(c.Pods, p)
 	}
 	c.Missing = r.Intn(2)
@@ -196,8 +198,18 @@ func c06Build(c c06Case, now time.Time) (map[string]string, *strategy.Parameters
 			cs.State = corev1.ContainerState{Running: &corev1.ContainerStateRunning{StartedAt: st}}
 		}
 		if ps.InitC {
-			pod.Status.ContainerStatuses = []corev1.ContainerStatus{{Name: "main", State: corev1.ContainerState{Running: &corev1.ContainerStateRunning{StartedAt: st}}}}
+			main := corev1.ContainerStatus{Name: "main", State: corev1.ContainerState{Running: &corev1.ContainerStateRunning{StartedAt: st}}}
+			if ps.Waiting != "" {
+				// while an init container has not completed, the kubelet reports every regular container
+				// as waiting with reason PodInitializing (listed before the init container statuses)
+				main.State = corev1.ContainerState{Waiting: &corev1.ContainerStateWaiting{Reason: "PodInitializing"}}
+			}
+			pod.Status.ContainerStatuses = []corev1.ContainerStatus{main}
 			pod.Status.InitContainerStatuses = []corev1.ContainerStatus{cs}
+		} else if ps.Sibling {
+			// a second regular container, listed first, waiting for an unrelated reason and never restarted
+			sib := corev1.ContainerStatus{Name: "a-first", State: corev1.ContainerState{Waiting: &corev1.ContainerStateWaiting{Reason: "CrashLoopBackOff"}}}
+			pod.Status.ContainerStatuses = []corev1.ContainerStatus{sib, cs}
 		} else {
 			pod.Status.ContainerStatuses = []corev1.ContainerStatus{cs}
 		}
